@@ -281,6 +281,38 @@ def no_reentry(res, prog):
             res.sample({'rule': 'C12.6', 'from': start, 'reachable_workspace_fns': len(r)})
 
 
+def outcome_from_slot(res, prog):
+    """C12.7: what a requester observes for a module comes out of that module's slot and of nothing else.  In
+    Symbolizer::fill_symbol / walk_frame the call of get_symbols(module) dominates every return (no shortcut answers
+    the request before the slot is consulted), and the finished-lookup statistics - keyed by leaf name, i.e. coarser
+    than the slot key - are written only while a slot is being filled and read only by the stats() getter."""
+    c = prog.crate('breakpad_symbols')
+    res.rule('C12.7', 0, floor=5, note='get_symbols dominates every return of fill_symbol / walk_frame; Symbolizer.stats is touched only by the slot fill and the stats() getter')
+    for name in ('fill_symbol', 'walk_frame'):
+        f = need_fn(res, c, 'breakpad_symbols::Symbolizer::%s::{closure#0}' % name, 'C12.7')
+        if f is None:
+            continue
+        gs = [b for b, t in f.calls() if (f.callee(t) or '').endswith('Symbolizer::get_symbols')]
+        res.rule('C12.7', 1)
+        if len(gs) != 1:
+            res.violation('C12.7', 'C12.7|%s|calls' % name, f, f.line, '%s consults the symbol slot %d times' % (name, len(gs)))
+            continue
+        for (b, i, tr) in ret_assigns(f):
+            res.rule('C12.7', 1)
+            if not f.dominates(gs[0], b):
+                res.violation('C12.7', 'C12.7|%s|shortcut' % name, f, f.blocks[b]['t'].get('line') or f.line, '%s can answer a request without consulting the module\'s slot (a return that get_symbols(module) does not dominate): requesters of one module may then see different outcomes' % name)
+    for f in c.fns:
+        if f.mac and f.mac.startswith('derive('):
+            continue
+        for b, t in f.calls():
+            if (f.callee(t) or '') in ('std::sync::Mutex::lock', 'std::sync::Mutex::try_lock', 'std::sync::Mutex::get_mut', 'std::sync::Mutex::into_inner'):
+                a = show(f.expand(f.operand_tree(t['args'][0])))
+                if re.search(r'\bself\.stats\b', a) and 'Symbolizer' in f.qual:
+                    res.rule('C12.7', 1)
+                    if not (f.qual == 'breakpad_symbols::Symbolizer::stats' or f.qual.startswith(SLOT_CLOSURE)):
+                        res.violation('C12.7', 'C12.7|stats-access|%s' % f.qual, f, t.get('line'), 'the finished-lookup statistics (keyed by leaf name, coarser than the slot key) are consulted in %s: an answer derived from them can belong to another module' % f.qual.split('::')[-1])
+
+
 def run(tier, t0):
     res = harness.Result(PID)
     prog = program()
@@ -290,6 +322,7 @@ def run(tier, t0):
     counters(res, prog)
     guards_across_await(res, prog)
     no_reentry(res, prog)
+    outcome_from_slot(res, prog)
     res.assumptions += [
         'futures_util::lock::Mutex is a fair async mutex: a task waiting for the lock is woken when the guard is dropped (trusted)',
         'cachemap2::CacheMap::cache_default returns the same slot for equal keys and never removes entries (trusted; insert-only API)',
